@@ -182,8 +182,11 @@ MechChild(T, thr, net, bound) ==
      ELSE last
 
 \* the tree after the anchor advanced to `child`
+\* (descendants by one pass over the arrival order - parents arrive before children - instead of the
+\* recursive Desc, whose depth is the length of the chain)
+DescFast(T, b) == FoldLeft(LAMBDA S, x : IF x # T.anchor /\ Par(x) \in S THEN S \cup {x} ELSE S, {b}, T.arr)
 Advance(T, child) ==
-  LET keep == Desc(T, child)
+  LET keep == TLCEval(DescFast(T, child))
   IN [anchor |-> child, arr |-> SelectSeq(T.arr, LAMBDA x : x \in keep)]
 
 (***************************************************************************)
@@ -225,6 +228,7 @@ PreorderFast(T) ==
 
 FastMapsAgree(T) ==
   /\ PreorderFast(T) = Preorder(T, T.anchor)
+  /\ \A b \in InTree(T) : DescFast(T, b) = Desc(T, b) /\ Height(b) = HeightRec(b) /\ ChainTo(b) = ChainToRec(b)
   /\ \A b \in InTree(T) : DepthMap(T)[b] = Depth(T, b) /\ DDMap(T)[b] = DD(T, b)
                             /\ StabilityMap(T)[b] = StabilityCount(T, b)
                             /\ RelHeightMap(T)[b] = Height(b) - Height(T.anchor)
